@@ -84,11 +84,15 @@ CHECKS["C07"] = (MC,
     "remote and merged and checks survival and provenance (markers allowed); a dedicated family where both sides rewrite the same "
     "line(s) of an id-aligned cell must be flagged as conflict with both variants present.", MERGE_NOTE, "DESIGN.md §5 C07")
 CHECKS["C10"] = (MC,
-    "TLC trace validation (MergeTrace.tla: UseSideNoConflict, UseSideEquivalence via the specification's ResolveAll + ApplyDecisions, "
+    "TLC model checking of MergeAlgo.tla with strategies (transcription of tryresolve / resolve_conflicted_decisions_* / "
+    "resolve_strategy_generic: UseSideResolved, UseSideEquiv, StrategyInert on every triple x strategy configuration; decisions compared "
+    "with nbdime's under the same Strategies) + TLC trace validation (MergeTrace.tla: UseSideNoConflict, UseSideEquivalence via the specification's ResolveAll + ApplyDecisions, "
     "LinesProvenance) of use-base/local/remote merges against the open-conflict (mergetool) run of the same triple",
     "Each triple is merged with conflicts left open and with use-<side> given as merge strategy, as input+output strategy, and as all "
     "three, transients ignored or not; TLC resolves every conflicted decision of the open run to that side with the spec's applier and "
-    "compares with the strategy's merged notebook.", MERGE_NOTE, "DESIGN.md §5 C10")
+    "compares with the strategy's merged notebook. At design level the generic merger's strategy handling is transcribed into MergeAlgo.tla "
+    "and TLC checks the same equivalence for every triple of short lists / strings / objects under every strategy configuration; the "
+    "model's cases are also merged by the real generic merger and validated the same way.", MERGE_NOTE, "DESIGN.md §5 C10")
 CHECKS["C11"] = (MC,
     "TLC trace validation: DiffTrace.tla clauses SchemaOK/PlainJSON/WellFormed on every diff of the C01/C02 input spaces, MergeTrace.tla "
     "clause EmbeddedWellFormed on every diff embedded in merge decisions; DiffModel.tla checks WellFormed/Patch consistency",
@@ -139,7 +143,8 @@ CHECKS["C19"] = (MC,
     "The documented rule is an explicit TLA+ definition (Winner / PathWinner) over the section lists of docs/source/config.rst; TLC "
     "enumerates every assignment within the bound for each of the 11 entry points and checks the rule's defining invariants. Each case "
     "is written to nbdime_config.json files in a private cwd, JUPYTER_CONFIG_PATH entry and JUPYTER_CONFIG_DIR for six representative "
-    "options (incl. path-wise merged Ignore); build_config and the real parser (with and without the flag) must return the winner's value.",
+    "options (incl. path-wise merged Ignore); build_config and the real parser (with and without the flag) must return the winner's value; "
+    "six entry points are also parsed the other way they can be started (through the `nbdime <command>` dispatcher, the server as a module).",
     "Trusted: the mapping of abstract sites to files/values; jupyter_core's order of the non-cwd directories; parser capture for the git "
     "tools.", "DESIGN.md §5 C19")
 
@@ -148,8 +153,9 @@ CHECKS["C20"] = (MC,
     "digests of the whole server directory, shutdown) + history independence of answers + TLC validation (DiffTrace.tla) of /api/diff "
     "answers + comparison of /api/merge answers with the library",
     "The API is a state machine over (disk, running) per start-up mode; TLC checks confinement, store gating, close gating, errors-change-"
-    "nothing and history independence on the model and enumerates all sequences of 2 (and 3) requests over 17 request kinds (valid, "
-    "malformed JSON, missing keys, non-notebook / missing files, extra path fields in the store body, unknown route). Each sequence runs "
+    "nothing and history independence on the model and enumerates all sequences of 2 (and 3) requests over 19 request kinds (valid, "
+    "malformed JSON, missing keys, non-notebook / missing files, extra path fields in the store body, a notebook that cannot be encoded, "
+    "unknown routes incl. one that differs from an API route in one character under a base URL with a regular expression metacharacter). Each sequence runs "
     "against the real handlers; after every request the status class and every file of the server directory are compared with the model.",
     "Trusted: stub jupyter_server/jinja2 (no auth/XSRF); IOLoop.stop interception; content ids by byte/JSON comparison.", "DESIGN.md §5 C20")
 
